@@ -34,6 +34,45 @@ def run(ctx):
     wres = witness.apply(ctx, lambda t: "R18.1", os.path.join(VERIF, "witness", "tl_C18.cpp"), broken_tags=("w6",))
     unique_idiom = "w6" not in wres["failed"] and not wres["broken"]
 
+    # ---- R18.6: moves transfer (destroy the overwritten object now, leave the source empty): the special members are the
+    # owning base's own (defaulted), or a user-provided body that hands the source to the base's move operation
+    ctx.rule("R18.6", "quaint_ptr's move operations are unique_ptr's (defaulted) or delegate to them: the overwritten object dies at the assignment and the source is left empty")
+    qc = prog.cls(QP)
+    if ctx.anchor("R18.6", QP, qc is not None):
+        where = "%s:%d" % (qc["file"], qc["line"])
+        owning_base = any("unique_ptr" in (b.get("name") or "") for b in qc.get("bases", []))
+        for op in ("move_ctor", "move_assign", "dtor"):
+            sp = qc.get("special", {}).get(op)
+            if sp is None or sp.get("deleted"):
+                ctx.check(op == "dtor" and False, "R18.6", QP, op + "-present", "quaint_ptr has no usable %s" % op.replace("_", " "), where)
+                continue
+            if not sp.get("user_provided"):
+                ctx.check(owning_base, "R18.6", QP, op + "-is-the-owners", "the compiler-generated %s moves members one by one; the owner is not a unique_ptr base" % op, where,
+                          why_ok="defaulted on a unique_ptr base")
+                continue
+            mf = prog.fn(sp["id"])
+            if mf is None or not mf.has_cfg:
+                ctx.broken("R18.6", QP, op + "-is-the-owners", "user-provided %s without an analysable body" % op, where)
+                continue
+            pn0 = mf.params[0]["name"] if mf.params else None
+            delegates = False
+            for _, _, e in mf.all_elems():
+                if e.get("expr") is None:
+                    continue
+                for n in walk(e["expr"]):
+                    if n.get("k") in ("call", "construct"):
+                        nm = n.get("name") or ""
+                        args = [fmt(ir.unwrap(a)) for a in n.get("args", [])]
+                        if "unique_ptr" in nm and ((n.get("op") == "=" or n.get("k") == "construct" or e["kind"] == "init") and args[:1] == ["move(%s)" % pn0]):
+                            delegates = True
+                        if short(nm) == "reset" and args and args[0] == "%s.release()" % pn0:
+                            delegates = True
+            if op == "dtor":
+                ctx.ok("R18.6", mf, "dtor-user-provided", "user-provided destructor (the unique_ptr base still destroys the object)", mf)
+                continue
+            ctx.check(delegates, "R18.6", mf, op + "-transfers",
+                      "the user-provided %s does not hand the source to unique_ptr's own move (%s): with an exchange instead of a transfer the object the target held is not destroyed at the "
+                      "assignment and the moved-from pointer is not empty" % (op.replace("_", " "), [fmt(e["expr"]) for _, _, e in mf.roots()]), mf)
     # ---- R18.2
     mq = [f for f in prog.find("nitro::lang::make_quaint") if f.has_cfg]
     ctx.need("R18.2", "make_quaint bodies (pattern + instantiation)", len(mq), 2)
@@ -246,6 +285,29 @@ def _optional_rules(ctx, prog, c):
         ctx.check(ok, "R18.4", f, "path without write to data_",
                   "copy assignment leaves the target untouched on the path B%s (source empty): assigning an empty optional does not empty the target"
                   % "->B".join(str(b) for b in (path or [])), f)
+    # self-assignment (a = a through aliases): the source must not be read after the target's storage was released
+    for f in copy_asg:
+        pname = f.params[0]["name"] if f.params else None
+        ws = [(bid, i, e) for bid, i, e, rhs in data_writes(f)]
+        def reads_src(e, pname=pname):
+            if e.get("expr") is None:
+                return False
+            return any(n.get("k") == "ref" and n.get("decl") == "param:%s" % pname for n in walk(e["expr"]))
+        guarded = lambda b: bool(cfg.dominated_by_edge(f, b, lambda c: "this" in fmt(c) and "&" in fmt(c) and "!=" in fmt(c))) or \
+            bool(cfg.dominated_by_edge(f, b, lambda c: "this" in fmt(c) and "&" in fmt(c) and "==" in fmt(c), "false"))
+        late = []
+        for bid, i, e in ws:
+            if guarded(bid):
+                continue
+            for b2, i2, e2 in cfg.find_elems(f, reads_src):
+                if e2 is e:
+                    continue
+                if cfg.reaches_without(f, (bid, i), lambda x, t=e2: x is t, lambda x: False) is not None:
+                    late.append((e, e2))
+        ctx.check(not late, "R18.4", f, "source-read-before-release",
+                  "the copy assignment changes its own storage (line %s: %s) and reads the source afterwards (line %s) without a self-assignment test: for `a = a` the source is the "
+                  "object just emptied, so an engaged optional silently becomes empty"
+                  % ((late[0][0].get("ln"), late[0][0].get("text", "")[:40], late[0][1].get("ln")) if late else ("-", "-", "-")), f)
     # every other assignment operator (move assignment, assignment from a value) overwrites the storage on every path
     # except the self-assignment path: "assigning X" makes the target hold X's state, whatever it held before
     other_asg = [f for f in methods if f.op == "=" and not f.flags.get("copy_assign") and f.is_pattern]
